@@ -44,9 +44,11 @@ class RunLog:
         self.callbacks_total = 0
         self.interrupt = None  # {"at": k, "mode": ...}
         self.interrupt_fired = []  # (task, callback index, name)
+        self.interrupt_dropped = []  # interrupts aimed at a simulated process whose SIGINT disposition is "ignore"
         self.broadcast = False
         self.stages = None
         self.log_metric_arrays = False
+        self.mom_draws = []  # (generator state before, consumed?, task, inside _sample_chain?) of every System.sample_momentum call
 
 
 def _tl(name, default=None):
@@ -223,7 +225,7 @@ class RecordingAdapter:
             before,
             pos=np.array(chain_state.pos, copy=True),
             accept_stat=None if trans_stats is None else trans_stats.get("accept_stat"),
-            adapt_iter=adapt_state.get("iter") if isinstance(adapt_state, dict) else None,
+            adapt_iter=adapt_state.get("iter", adapt_state.get("n_update")) if isinstance(adapt_state, dict) else None,
         )
 
     def finalize(self, adapt_states, chain_states, transition, rngs):
@@ -330,8 +332,9 @@ def _adapt_states_summary(adapt_states):
 class RWTransition:
     """Random-walk Metropolis transition on 'pos' for the generic sampler (harness-side)."""
 
-    def __init__(self, model, scale, label="rw"):
+    def __init__(self, model, scale, label="rw", extra_stat=None):
         self.model, self.scale, self.label = model, scale, label
+        self.extra_stat = extra_stat  # name of one more statistic (chosen so that key pairs of two transitions collide)
 
     @property
     def state_variables(self):
@@ -339,12 +342,15 @@ class RWTransition:
 
     @property
     def statistic_types(self):
-        return {
+        types = {
             "accepted": (bool, False),
             "delta": (np.float64, np.nan),
             "count": (np.int64, -1),
             "scale": (np.float64, np.nan),
         }
+        if getattr(self, "extra_stat", None):
+            types[self.extra_stat] = (np.float64, np.nan)
+        return types
 
     def sample(self, state, rng):
         prop = state.pos + self.scale * rng.standard_normal(state.pos.shape)
@@ -353,7 +359,10 @@ class RWTransition:
         acc = bool(np.log(rng.uniform()) < delta)
         if acc:
             state.pos = prop
-        return state, {"accepted": acc, "delta": delta, "count": int(np.sum(state.pos > 0)), "scale": self.scale}
+        stats = {"accepted": acc, "delta": delta, "count": int(np.sum(state.pos > 0)), "scale": self.scale}
+        if getattr(self, "extra_stat", None):
+            stats[self.extra_stat] = 2.0 * float(np.sum(state.pos)) + 1.0
+        return state, stats
 
 
 class NoStatsTransition:
@@ -405,11 +414,13 @@ class RWScaleAdapter:
 
     def initialize(self, chain_state, transition):  # noqa: ARG002
         transition.scale = 1.0
-        return {"iter": 0, "log_scale": 0.0}
+        # an adapter state is a plain dict with keys of the adapter's own choosing: deliberately none of the names
+        # the built-in adapters use ("iter", "mean", ...)
+        return {"n_update": 0, "log_scale": 0.0}
 
     def update(self, adapt_state, chain_state, trans_stats, transition):  # noqa: ARG002
-        adapt_state["iter"] += 1
-        adapt_state["log_scale"] += (0.3 if trans_stats["accepted"] else -0.3) / adapt_state["iter"]
+        adapt_state["n_update"] += 1
+        adapt_state["log_scale"] += (0.3 if trans_stats["accepted"] else -0.3) / adapt_state["n_update"]
         transition.scale = float(np.exp(adapt_state["log_scale"]))
 
     def finalize(self, adapt_states, chain_states, transition, rngs):  # noqa: ARG002
@@ -523,20 +534,34 @@ def _handler(name, q):  # noqa: ARG001
     it = run.interrupt
     if it is not None:
         if run.callbacks == it["at"]:
-            run.interrupt_fired.append((me, run.callbacks, name))
             if it.get("mode") == "broadcast":
                 sim = procsim.current()
                 if sim is not None:
                     for n, t in sim.tasks.items():
                         if n != me and not t["done"]:
                             sim.interrupt_pending.add(n)
+            if _ignores_sigint(me):
+                run.interrupt_dropped.append((me, run.callbacks, name))
+                return None
+            run.interrupt_fired.append((me, run.callbacks, name))
             raise KeyboardInterrupt
         sim = procsim.current()
         if sim is not None and me in sim.interrupt_pending:
             sim.interrupt_pending.discard(me)
+            if _ignores_sigint(me):
+                run.interrupt_dropped.append((me, run.callbacks, name))
+                return None
             run.interrupt_fired.append((me, run.callbacks, name))
             raise KeyboardInterrupt
     return None
+
+
+def _ignores_sigint(task):
+    """SIGINT disposition of the simulated process running `task` (see procsim docstring)."""
+    sim = procsim.current()
+    if sim is None or task == sim.main_name or task not in sim.tasks:
+        return procsim.parent_ignores_sigint()
+    return bool(sim.tasks[task].get("sigint_ignored"))
 
 
 # --------------------------------------------------------------------------------------
@@ -593,6 +618,7 @@ def _install_observer(ms):
             _TL.iter_started = False
 
     ms._sample_chain = observed  # noqa: SLF001
+    _observe_momentum_draws()
     # the adapter HamiltonianMonteCarlo.sample_chains creates by default is observed too
     real_da = ms.DualAveragingStepSizeAdapter
     if not getattr(real_da, "_verif_wrapped", False):
@@ -603,6 +629,41 @@ def _install_observer(ms):
         _default_adapter._real = real_da  # noqa: SLF001
         ms.DualAveragingStepSizeAdapter = _default_adapter
     return real
+
+
+def _observe_momentum_draws():
+    """Class-level observer of every momentum draw (initial states, momentum transitions, adapters):
+    logs the state of whichever generator was handed in, before the draw, and whether it advanced."""
+    import mici.systems as msys
+
+    for cls in vars(msys).values():
+        if not isinstance(cls, type) or "sample_momentum" not in vars(cls):
+            continue
+        real = vars(cls)["sample_momentum"]
+        if getattr(real, "_verif_wrapped", False) or getattr(real, "__isabstractmethod__", False):
+            continue
+
+        def wrapped(self, state, rng, _real=real):
+            run = RUN
+            if run is None or _PAUSE["n"] or getattr(_TL, "in_mom_draw", False):
+                return _real(self, state, rng)  # harness-side draw, or super() call of an outer observed draw
+            try:
+                before = rng_digest(rng)
+            except Exception:  # noqa: BLE001
+                before = None
+            _TL.in_mom_draw = True
+            try:
+                out = _real(self, state, rng)
+            finally:
+                _TL.in_mom_draw = False
+            if before is not None:
+                run.mom_draws.append((before, rng_digest(rng) != before, threading.current_thread().name, bool(getattr(_TL, "in_chain", False))))
+            return out
+
+        wrapped._verif_wrapped = True  # noqa: SLF001
+        wrapped._real = real  # noqa: SLF001
+        wrapped.__name__ = "sample_momentum"
+        setattr(cls, "sample_momentum", wrapped)
 
 
 # --------------------------------------------------------------------------------------
@@ -663,12 +724,15 @@ def build_sampler(scn):
     sysspec = scn["system"]
     if kind == "generic":
         model = zoo.Quartic(**sysspec["target"])
-        transitions = {"rw": Recording(RWTransition(model, scn.get("rw_scale", 0.7)), "rw")}
+        # optional colliding key pairs: ("rw", "b_accepted") and ("rw_b", "accepted") both join to "rw_b_accepted"
+        collide = bool(scn.get("colliding_stat_keys")) and bool(scn.get("third_transition"))
+        third_key = "rw_b" if collide else "rw2"
+        transitions = {"rw": Recording(RWTransition(model, scn.get("rw_scale", 0.7), extra_stat="b_accepted" if collide else None), "rw")}
         if scn.get("second_transition"):
             transitions["jit"] = Recording(NoStatsTransition(0.05), "jit")
         if scn.get("third_transition"):
             # a second statistics-bearing transition with the SAME statistic keys as the first
-            transitions["rw2"] = Recording(RWTransition(model, 0.2, label="rw2"), "rw2")
+            transitions[third_key] = Recording(RWTransition(model, 0.2, label=third_key), third_key)
         import warnings
 
         with warnings.catch_warnings():
@@ -846,6 +910,7 @@ def run_scenario_raw(scn) -> Record:
             "metric": "n/a" if system is None else metric_fingerprint(system),
             "scale": getattr(_t0, "scale", None),
         }
+        _own_sigint = _reset_sigint()
         with procsim.installed(sim, disk):
             real_sc = _install_observer(ms)
             try:
@@ -914,6 +979,10 @@ def run_scenario_raw(scn) -> Record:
         hooks.clear()
         if tmpdir is not None:
             shutil.rmtree(tmpdir, ignore_errors=True)
+        # what the call left behind as this process's SIGINT disposition (a parent left ignoring SIGINT
+        # cannot be interrupted any more); then back to the default for the next scenario
+        rec.sigint_left_ignored = procsim.parent_ignores_sigint()
+        _reset_sigint()
     rec.log = run
     rec.sim = sim
     rec.disk_flush_calls = disk.flush_calls
@@ -925,6 +994,20 @@ def run_scenario_raw(scn) -> Record:
     rec.completion = None if sim is None else list(sim.completion)
     rec.raw = None  # do not keep memmaps alive
     return rec
+
+
+def _reset_sigint():
+    """Every scenario starts from Python's default SIGINT disposition (a check started from a background
+    shell job inherits SIG_IGN, which would otherwise read as 'the parent ignores interrupts')."""
+    import signal
+
+    if threading.current_thread() is threading.main_thread():
+        try:
+            signal.signal(signal.SIGINT, signal.default_int_handler)
+            return True
+        except (ValueError, OSError):
+            return False
+    return False
 
 
 def _mici_site(e):
@@ -1020,6 +1103,7 @@ def random_scenario(rng, *, profile="mixed", run_seed=None):
         scn["system"] = {"kind": "euclid", "dim": dim, "target": zoo.quartic_from_seed(rng, dim)}
         scn["second_transition"] = rng.random() < 0.5
         scn["third_transition"] = rng.random() < 0.4
+        scn["colliding_stat_keys"] = scn["third_transition"] and rng.random() < 0.5
         scn["init"] = rng.choice(["dict", "state"])
         scn["trace"] = rng.choice(["none", "empty", "pos", "two_overlap", "scalar", "tag", "three", "odd_keys", "override_dtype"])
         scn["adapters"] = rng.choice([None, [], ["rwscale"], ["rwscale", "jitamount"], ["jitamount"]])
